@@ -1,0 +1,49 @@
+//go:build verif
+
+// Contracts for the deductive verifier in /verif (govc). This file contains comments
+// only; it adds no code to the package and is excluded from normal builds by its tag.
+package astits
+
+//@ func updateCRC32
+//@   ensures [C10] fold: result == crcFold(old(crc32), bs, 0, len(bs))
+//@   loop 0 invariant [C10] idx: rangeindex == iter - 1 && iter <= len(bs)
+//@   loop 0 invariant [C10] acc: crc32 == crcFold(old(crc32), bs, 0, iter)
+//@   loop 0 assert [C10] tablestep: crc32 == crcStep(pre(crc32), b)
+//@   loop 0 decreases [C10] len(bs) - iter
+
+//@ func computeCRC32
+//@   ensures [C10] init: result == crcFold(0xFFFFFFFF, bs, 0, len(bs))
+
+// ---------------------------------------------------------------------------
+// packet.go: TS packet header / adaptation field (ISO/IEC 13818-1 2.4.3.2-5)
+
+//@ func parsePacketHeader
+//@   requires itOK(i)
+//@   modifies i.offset
+//@   let o = old(i.offset)
+//@   let b0 = old(i.bs[i.offset])
+//@   let b1 = old(i.bs[i.offset + 1])
+//@   let b2 = old(i.bs[i.offset + 2])
+//@   ensures erriff: (err != nil) == (len(i.bs) < o + 3)
+//@   ensures adv: err == nil ==> i.offset == o + 3
+//@   ensures noadv: err != nil ==> i.offset == o
+//@   ensures [C11] tei: err == nil ==> h.TransportErrorIndicator == bit(b0, 0x80)
+//@   ensures [C11] pusi: err == nil ==> h.PayloadUnitStartIndicator == bit(b0, 0x40)
+//@   ensures [C11] prio: err == nil ==> h.TransportPriority == bit(b0, 0x20)
+//@   ensures [C11] pid: err == nil ==> h.PID == u16(b0 & 0x1f) << 8 | u16(b1)
+//@   ensures [C11] tsc: err == nil ==> h.TransportScramblingControl == b2 >> 6
+//@   ensures [C11] hasaf: err == nil ==> h.HasAdaptationField == bit(b2, 0x20)
+//@   ensures [C11] haspl: err == nil ==> h.HasPayload == bit(b2, 0x10)
+//@   ensures [C11] cc: err == nil ==> h.ContinuityCounter == b2 & 0x0f
+
+//@ func parsePCR
+//@   requires itOK(i)
+//@   modifies i.offset
+//@   let o = old(i.offset)
+//@   let v = old(u64(i.bs[i.offset]) << 40 | u64(i.bs[i.offset+1]) << 32 | u64(i.bs[i.offset+2]) << 24 | u64(i.bs[i.offset+3]) << 16 | u64(i.bs[i.offset+4]) << 8 | u64(i.bs[i.offset+5]))
+//@   ensures erriff: (err != nil) == (len(i.bs) < o + 6)
+//@   ensures adv: err == nil ==> i.offset == o + 6
+//@   ensures noadv: err != nil ==> i.offset == o
+//@   ensures [C11,C16] fresh: err == nil ==> cr != nil && fresh(cr)
+//@   ensures [C11] base: err == nil ==> cr.Base == i64(v >> 15)
+//@   ensures [C11] ext: err == nil ==> cr.Extension == i64(v & 0x1ff)
